@@ -75,6 +75,7 @@ Result execute(const Plan &p) {
     if (square) for (long i = 0; i < n; ++i) { bool has = false; for (ptrdiff_t j = A.ptr[i]; j < A.ptr[i+1]; ++j) if (A.col[j] == i) has = true; (void)has; }
     sim::rng pr((uint64_t)p.get("pseed"), "partition");
     std::vector<long> rp = draw_partition(pr, n, R), cp = square ? rp : draw_partition(pr, m, R), kp = draw_partition(pr, kk, R);
+    std::vector<double> x2 = gen::make_vector(m, (uint64_t)p.get("vseed") + 7, 1), x3 = gen::make_vector(m, (uint64_t)p.get("vseed") + 8, 1);
     std::vector<double> x = gen::make_vector(m, (uint64_t)p.get("vseed"), 1), y0 = gen::make_vector(n, (uint64_t)p.get("vseed") + 1, 1), z0 = gen::make_vector(n, (uint64_t)p.get("vseed") + 2, 1);
     double alpha = (double)p.get("alpha"), beta = (double)p.get("beta");
     auto sig = [&](const char *oracle, const char *clause, const std::string &detail) { Violation v; v.oracle = oracle; v.add("component", "distributed_matrix"); v.add("clause", clause); v.add("ranks", R); v.detail = detail; return v; };
@@ -123,8 +124,11 @@ Result execute(const Plan &p) {
         std::vector<double> xl(x.begin() + c0, x.begin() + c1), yl(y0.begin() + r0, y0.begin() + r1), zl(z0.begin() + r0, z0.begin() + r1), rl(r1 - r0, 777.0);
         std::vector<double> out1(r1 - r0, std::numeric_limits<double>::quiet_NaN());
         dA.mul(alpha, xl, 0.0, out1);                 // beta == 0: previous content of y must not matter
-        std::vector<double> out2 = yl; dA.mul(alpha, xl, beta, out2);
-        dA.residual(zl, xl, rl);
+        // consecutive products on one object with DIFFERENT vectors: the send buffers of the first exchange must not be
+        // touched while MPI may still read them
+        std::vector<double> xl2(x2.begin() + c0, x2.begin() + c1), xl3(x3.begin() + c0, x3.begin() + c1);
+        std::vector<double> out2 = yl; dA.mul(alpha, xl2, beta, out2);
+        dA.residual(zl, xl3, rl);
         for (long i = r0; i < r1; ++i) { y1[i] = out1[i - r0]; y2[i] = out2[i - r0]; rr[i] = rl[i - r0]; }
         amgcl::mpi::inner_product dot(comm);
         ip[rank] = dot(yl, zl);
@@ -151,10 +155,10 @@ Result execute(const Plan &p) {
         if (!(e = same(gotS, wantS)).empty()) res.fail(sig("serial-equivalence", "scale-sort_rows", e));
         if (!(e = same(gotF, wantA)).empty()) res.fail(sig("serial-equivalence", "copy-between-backends", e));
         for (int r = 0; r < R; ++r) if (grows[r] != n || gcols[r] != m || gnnz[r] != (long)A.nnz()) { res.fail(sig("collective-scalars", "global-sizes", fmt("rank %d reports %ld x %ld with %ld nonzeros, expected %ld x %ld with %zu", r, grows[r], gcols[r], gnnz[r], n, m, A.nnz()))); break; }
-        for (long i = 0; i < n; ++i) { double ax = 0; for (ptrdiff_t j = A.ptr[i]; j < A.ptr[i+1]; ++j) ax += A.val[j] * x[A.col[j]];
+        for (long i = 0; i < n; ++i) { double ax = 0, ax2 = 0, ax3 = 0; for (ptrdiff_t j = A.ptr[i]; j < A.ptr[i+1]; ++j) { ax += A.val[j] * x[A.col[j]]; ax2 += A.val[j] * x2[A.col[j]]; ax3 += A.val[j] * x3[A.col[j]]; }
             if (y1[i] != alpha * ax) { res.fail(sig("serial-equivalence", "spmv-beta-zero", fmt("row %ld: %.17g, serial %.17g", i, y1[i], alpha * ax))); break; }
-            if (y2[i] != alpha * ax + beta * y0[i]) { res.fail(sig("serial-equivalence", "spmv-repeated", fmt("row %ld: %.17g, serial %.17g", i, y2[i], alpha * ax + beta * y0[i]))); break; }
-            if (rr[i] != z0[i] - ax) { res.fail(sig("serial-equivalence", "residual", fmt("row %ld: %.17g, serial %.17g", i, rr[i], z0[i] - ax))); break; } }
+            if (y2[i] != alpha * ax2 + beta * y0[i]) { res.fail(sig("serial-equivalence", "spmv-repeated", fmt("row %ld: %.17g, serial %.17g", i, y2[i], alpha * ax2 + beta * y0[i]))); break; }
+            if (rr[i] != z0[i] - ax3) { res.fail(sig("serial-equivalence", "residual", fmt("row %ld: %.17g, serial %.17g", i, rr[i], z0[i] - ax3))); break; } }
         double dot = 0; for (long i = 0; i < n; ++i) dot += y0[i] * z0[i];
         for (int r = 0; r < R; ++r) if (ip[r] != dot) { res.fail(sig("collective-scalars", "inner-product", fmt("rank %d: %.17g, serial %.17g", r, ip[r], dot))); break; }
         if (square && n > 0) {
